@@ -224,6 +224,16 @@ def _gen_for(stream, seed):
                          "impact": {f"{r}|{ssec}": rng.choice([0.9, 0.95, 1.0]) for r in regs}, "recovery_tau": 5, "curve": "linear"}]
         sc["stream"] = "sudden"
         return sc
+    if stream == "large":
+        # a table with many more industries than the other streams (positional or size-dependent slips), few steps
+        m_, n_, k_ = rng.choice([(4, 6, 2), (6, 5, 1), (3, 8, 2)])
+        sc = scen.gen_scenario(seed, "shocked", m=m_, n=n_, k=k_, nev=rng.choice([2, 3]), T=8, max_occ=3)
+        for ev in sc["events"]:
+            ev["dur"] = min(ev["dur"], 2)
+            if ev["type"] == "rebuild":
+                ev["rebuild_tau"] = rng.choice([1, 2, 5])
+        sc["stream"] = "large"
+        return sc
     if stream == "fastrebuild":
         # a small rebuilding event whose rebuilding time is shorter than the step: every step presents more than what
         # remains and is served almost in full (the ledger must stop at zero, not below)
